@@ -128,7 +128,7 @@ class Concretizer:
             items = []
             seen = set()
             for (mid, kz) in self.st.heap.get('__mapkeys__', ()):
-                if mid != str(v.val) and mid != str(v.dom):
+                if mid != v.val.get_id() and mid != v.dom.get_id():
                     continue
                 kv = self.ev(kz)
                 if str(kv) in seen:
@@ -149,7 +149,8 @@ class Concretizer:
             j = {'t': 'opaque', 'name': str(val), 'sort': v.sortname}
             try:
                 tf = z3.Function('truthy_' + v.sortname, v.z.sort(), BoolS)
-                j['truthy'] = z3.is_true(self.ev(tf(v.z)))
+                j['truthy'] = z3.is_true(self.ev(tf(v.z))) if (
+                    v.sortname == 'Any' or v.sortname in self.ex.spec.falsy_sorts) else True
                 af = z3.Function('isawaitable_' + v.sortname, v.z.sort(), BoolS)
                 j['awaitable'] = z3.is_true(self.ev(af(v.z)))
             except Exception:
@@ -175,6 +176,8 @@ def same(pred, nat, path=''):
     """Compare predicted (model) JSON with native JSON -> list of differences."""
     if pred.get('t') in ('any',) or nat.get('t') in ('other',):
         return []
+    if pred.get('t') == 'opaque' and pred.get('sort') == 'Tag':
+        return []       # symbolic callable reference: nothing to compare
     if pred.get('t') == 'tag' and nat.get('t') == 'tag':
         pn = pred['v'].rsplit('.', 1)[-1].replace('method:', '')
         nn = nat['v'].rsplit('.', 1)[-1].replace('method:', '')
